@@ -54,6 +54,10 @@ ROOT = {
     "m1": OBJ1, "m2": OBJ2, "m3": 3, "m4": [OBJ1, OBJ2], "m5": 5,
 }
 
+import re as _re
+
+_ADDR = _re.compile(r"0x[0-9a-fA-F]+")
+
 CONFIGS = ("blocking-opt", "blocking-gen", "asyncio-thr", "asyncio-inl", "threadpool")
 
 
@@ -197,21 +201,38 @@ def observe(status, value, world, extra=None):
         res = value
         data = res.data if hasattr(res, "data") else res
         try:
-            obs["data"] = json.dumps(data, default=repr)
+            obs["data"] = _ADDR.sub("0x", json.dumps(data, default=repr))
         except Exception as e:  # noqa
-            obs["data"] = "unserialisable:%r" % (e,)
+            obs["data"] = "unserialisable:%s" % (type(e).__name__,)
         errs = []
         for e in getattr(res, "errors", []) or []:
             errs.append([str(getattr(e, "message", e)), pstr(getattr(e, "path", None) or [])])
         obs["errors"] = sorted(errs)
     elif status == "exc":
-        obs["exc"] = "%s:%s" % (type(value).__name__, value)
+        obs["exc"] = _ADDR.sub("0x", "%s:%s" % (type(value).__name__, value))
     if extra:
         obs.update(extra)
     return obs
 
 
-def run_config(config, scn, ch, document=None):
+_DOCS = {}
+
+
+def prepared(scn):
+    """parse + validate once per query text; later executions reuse the AST and skip re-validation."""
+    q = scn["query"]
+    d = _DOCS.get(q)
+    if d is None:
+        from py_gql.lang import parse
+        from py_gql.validation import validate_ast
+
+        ast = parse(q)
+        errs = validate_ast(schema_for({}, False), ast).errors
+        d = _DOCS[q] = (ast, [str(e) for e in errs])
+    return d
+
+
+def run_config(config, scn, ch, document=None, fast=False):
     """
     One execution of the scenario under ``config`` with the environment's answers taken from the
     chooser.  Returns (observation, world).
@@ -230,6 +251,11 @@ def run_config(config, scn, ch, document=None):
     if m:
         kwargs["middlewares"] = [_mk_mw("M%d" % i) for i in range(m)]
     doc = document if document is not None else scn["query"]
+    if fast and document is None:
+        ast, errs = prepared(scn)
+        if not errs:
+            doc = ast
+            kwargs["validators"] = []
     extra = {}
     if config in ("blocking-opt", "blocking-gen"):
         schema = schema_for(custom, False)
